@@ -667,3 +667,122 @@ func TestC12Framing(t *testing.T) {
 		})
 	})
 }
+
+// TestC12CnameGraph: well-formed answers whose CNAME records form chains, forks,
+// self loops and cycles through the queried name, in any order, with address and
+// HTTPS records hanging off any of the names. The resolver consumes every such
+// body in bounded time and memory.
+func TestC12CnameGraph(t *testing.T) {
+	rec := ev.Get("C12")
+	rapid.Check(t, func(t *rapid.T) {
+		c12SrvOnce.Do(func() {
+			s, err := dnsfx.NewServer(func(dnsfx.Query) (int, []byte) { return 200, nil })
+			if err != nil {
+				panic(err)
+			}
+			c12Srv = s
+		})
+		c12Mu.Lock()
+		defer c12Mu.Unlock()
+		pool := []string{"$Q", "a.example", "b.example", "c.example"}
+		type grec struct {
+			owner, target string
+			typ           uint16
+		}
+		var recs []grec
+		cyc := false
+		next := map[string]string{}
+		for i, n := 0, rapid.IntRange(1, 9).Draw(t, "nrec"); i < n; i++ {
+			g := grec{owner: pool[rapid.IntRange(0, 3).Draw(t, "owner")], typ: []uint16{5, 5, 5, 1, 28, 65}[rapid.IntRange(0, 5).Draw(t, "type")]}
+			if g.typ == 5 {
+				g.target = pool[rapid.IntRange(0, 3).Draw(t, "target")]
+				if _, dup := next[g.owner]; !dup {
+					next[g.owner] = g.target
+				}
+			}
+			recs = append(recs, g)
+		}
+		for cur, seen := "$Q", map[string]bool{}; ; {
+			if seen[cur] {
+				cyc = true
+				break
+			}
+			seen[cur] = true
+			nx, ok := next[cur]
+			if !ok {
+				break
+			}
+			cur = nx
+		}
+		c12Srv.SetRespond(func(q dnsfx.Query) (int, []byte) {
+			sub := func(s string) string {
+				if s == "$Q" {
+					return q.Name
+				}
+				return s
+			}
+			var ans []dnsfx.AnsRec
+			for i, g := range recs {
+				a := dnsfx.AnsRec{Owner: sub(g.owner), Type: g.typ, Rec: dnsfx.ZRec{TTL: 60}}
+				switch g.typ {
+				case 5:
+					a.Rec.CNAME = sub(g.target)
+				case 1:
+					a.Rec.IP = net.IP{192, 0, 2, byte(i)}
+				case 28:
+					a.Rec.IP = net.ParseIP(fmt.Sprintf("2001:db8::%d", i+1))
+				default:
+					a.Rec.HTTPS = dns.HTTPS{Priority: uint16(i % 3), Target: []string{"", "a.example", "b.example"}[i%3], ALPN: []string{"h2"}}
+				}
+				ans = append(ans, a)
+			}
+			pkt, err := dnsfx.Packet(q, 0, ans)
+			if err != nil {
+				pkt, _ = dnsfx.Packet(q, 2, nil)
+			}
+			return 200, pkt
+		})
+		c12Srv.TakeLog()
+		r, err := ech.NewResolver(c12Srv.URL)
+		if err != nil {
+			t.Fatalf("harness: %v", err)
+		}
+		if rapid.Bool().Draw(t, "no_cache") {
+			r.SetCacheSize(0)
+		}
+		name := rapid.SampledFrom([]string{"example.com", "example.com:8443", "foo://example.com", "a.example"}).Draw(t, "name")
+		rp := map[string]any{"records": fmt.Sprintf("%+v", recs), "resolve": name}
+		var ms0, ms1 runtime.MemStats
+		var rerr error
+		watch("C12", rp, func() {
+			runtime.ReadMemStats(&ms0)
+			ctx, cancel := context.WithTimeout(context.Background(), 20*time.Second)
+			defer cancel()
+			rerr = guard(func() error {
+				res, e := r.Resolve(ctx, name)
+				if e == nil {
+					for range res.Targets("tcp") {
+					}
+				}
+				return e
+			})
+			runtime.ReadMemStats(&ms1)
+		})
+		if isPanic(rerr) {
+			ev.Violation(t, "C12", rp, "Resolve panicked on an answer with this CNAME graph: %v", rerr)
+		}
+		if alloc := ms1.TotalAlloc - ms0.TotalAlloc; alloc > 16<<20 {
+			ev.Violation(t, "C12", rp, "Resolve allocated %d bytes on an answer with this CNAME graph", alloc)
+		}
+		if n := len(c12Srv.TakeLog()); n > 64 {
+			ev.Violation(t, "C12", rp, "Resolve sent %d queries for one name", n)
+		}
+		cl := []string{"cname_graph"}
+		if cyc {
+			cl = append(cl, "cname_cycle_from_qname")
+		}
+		rec.Case(fmt.Sprintf("cnames|%+v|%s", recs, name), cyc, cl, func() any {
+			return map[string]any{"kind": "cname_graph", "records": fmt.Sprintf("%+v", recs), "resolve": name, "err": fmt.Sprint(rerr)}
+		})
+	})
+}
